@@ -2,6 +2,7 @@
 import gen_bank as G
 import gen_hops as H
 import hops_oracles as O
+from props import c08 as C08
 ID = "C19"
 MANIFEST = {
     "text": ("Kernel-checked theorems over the handler/wrapper model: collect_bank_fees moves exactly the whole-token part of each "
@@ -13,7 +14,8 @@ MANIFEST = {
     "design_ref": "DESIGN.md §7 C19",
     "technique": "Coq proof (handler inversion + exact integer identities) + model/implementation correspondence at handler and wrapper level",
 }
-THEOREMS = ["C19_collect_fees_exact", "C19_emissions_conserved_and_capped", "C19_settle_pays_whole_tokens"]
+THEOREMS = ["C19_collect_fees_exact", "C19_emissions_conserved_and_capped", "C19_settle_pays_whole_tokens",
+            "C19_emissions_withdrawn_only_by_authority", "C19_emissions_destination_set_only_by_authority"]
 RULE = ("level C: handler sequences with fee buckets that are fractional, zero, or larger than the vault's liquidity, on SPL, "
         "Token-2022 and transfer-fee mints, interleaved with user activity and accrual; level B: sequences with emission flags, "
         "rates, remaining amounts and clock advances, with claim/settle operations. Non-trivial = a collect_fees that moved tokens "
@@ -70,10 +72,29 @@ def suites(rng, tier):
     m = {"quick": 600, "thorough": 12000, "search": 8000}[tier]
     b = [G.gen_case(rng, max_ops=24, limits="none", emissions=True) for _ in range(m)]
     return [{"suite": "hops", "name": "hops-fees", "lines": a, "distribution": {"cases": n}},
-            {"suite": "bankops", "name": "bankops-emissions", "lines": b, "distribution": {"cases": m}}]
+            {"suite": "bankops", "name": "bankops-emissions", "lines": b, "distribution": {"cases": m}},
+            destinations_suite()]
+
+
+FEE_EMISSION_IXS = ("lending_pool_setup_emissions", "lending_pool_update_emissions_parameters", "lending_account_withdraw_emissions",
+                    "lending_account_settle_emissions", "marginfi_account_update_emissions_destination_account",
+                    "lending_pool_collect_bank_fees", "lending_pool_withdraw_fees", "lending_pool_withdraw_fees_permissionless",
+                    "lending_pool_update_fees_destination_account", "lending_pool_withdraw_insurance",
+                    "lending_account_withdraw_emissions_permissionless")
+
+
+def destinations_suite():
+    """'only to their destinations': the cells of the authorization matrix (C08: every signer role x every account flag word,
+    every single account substitution) of the instructions that pay out or redirect fees, insurance and emissions, executed
+    through the real entry point — who may trigger a payout and to which token account it can go"""
+    lines = [l for l in C08.matrix() if C08.kvs(l)["ix"] in FEE_EMISSION_IXS]
+    return {"suite": "auth", "name": "fee-and-emission-destinations", "lines": lines,
+            "distribution": {"instructions": len(FEE_EMISSION_IXS), "cells": len(lines)}}
 
 
 def nontrivial(suite, case, impl):
+    if suite == "auth":
+        return C08.nontrivial(suite, case, impl)
     if suite == "hops":
         c = H.parse_case(case)
         tr = O.Trace(case, impl)
@@ -95,6 +116,8 @@ def nontrivial(suite, case, impl):
 
 
 def oracle(suite, case, impl):
+    if suite == "auth":
+        return C08.oracle(suite, case, impl)
     if suite == "hops":
         return O.oracle_c19(O.Trace(case, impl))
     # emissions conservation on the wrapper state machine
